@@ -151,6 +151,26 @@ func timedOff(name string, floodOff bool, b0 time.Duration, lens []int, gaps []t
 	if !s.Welcome("me", 5*time.Second) {
 		return nil, fmt.Errorf("no registration")
 	}
+	if strings.Contains(name, "after a reconnect") {
+		// the same client, second connection: whatever the first one's teardown left behind must not matter
+		disc := make(chan struct{}, 2)
+		s.C.HandleFunc(client.DISCONNECTED, func(*client.Conn, *client.Line) { disc <- struct{}{} })
+		go s.C.Close()
+		select {
+		case <-disc:
+		case <-time.After(5 * time.Second):
+			return nil, fmt.Errorf("no DISCONNECTED")
+		}
+		if err := s.Connect(); err != nil {
+			return nil, err
+		}
+		if !s.Welcome("me", 5*time.Second) {
+			return nil, fmt.Errorf("no registration on the second connection")
+		}
+		mu.Lock()
+		rls = nil
+		mu.Unlock()
+	}
 	// the send goroutine is idle now: preset the penalty and switch protection on
 	t0 := time.Now()
 	client.VerifSetFloodState(s.C, b0, t0)
@@ -261,6 +281,7 @@ func RunTimed(args []string) int {
 	plans := []plan{
 		{"near-threshold burst", false, 9500 * ms, []int{20, 0, 100}, nil, false},
 		{"from zero, short burst", false, 0, []int{10, 10, 10, 10}, nil, false},
+		{"near-threshold burst after a reconnect", false, 9500 * ms, []int{20, 0}, nil, false},
 		{"protection off", true, 0, []int{400, 400, 400, 400, 400, 400, 400, 400, 400, 400, 400, 400}, nil, false},
 	}
 	if *tier == "thorough" {
